@@ -24,11 +24,13 @@ def write_cases(ctx, cases, name):
     return p
 
 
-def run_filter(ctx, vh, out, cases=None, n=0, steps=30, seed=None, kinds='checker,select', prefix='', repos=''):
+def run_filter(ctx, vh, out, cases=None, n=0, steps=30, seed=None, kinds='checker,select', prefix='', repos='', conc=0):
     args = ['filter', '-out', out, '-n', str(n), '-steps', str(steps), '-seed', str(ctx.seed if seed is None else seed),
             '-kinds', kinds, '-prefix', prefix]
     if cases:
         args += ['-cases', cases, '-repos', repos]
+    if conc:
+        args += ['-conc', str(conc)]
     o = vlib.run_harness(ctx, vh, args)
     return json.loads(o.strip().splitlines()[-1])
 
@@ -48,11 +50,17 @@ def count_ops(ctx, trace):
                 kind = e['kind']
                 per['scenarios:' + kind] = per.get('scenarios:' + kind, 0) + 1
                 continue
+            if e['op'] == 'cscope':
+                per['sub:concurrent-observations'] = per.get('sub:concurrent-observations', 0) + 1
+                per['sub:concurrent-calls'] = per.get('sub:concurrent-calls', 0) + e['count']
+                continue
             if e.get('via') != 'wrapper':
                 per['backend-direct'] = per.get('backend-direct', 0) + 1
                 continue
             k = '%s:%s' % (kind, e['op'])
             per[k] = per.get(k, 0) + 1
+            if e['op'] == 'ListRepos' and e.get('errwith'):
+                per[kind + ':listing-failed-with-name'] = per.get(kind + ':listing-failed-with-name', 0) + 1
             if kind != 'sub' and e['op'] != 'skip' and not e['backend'] and e['op'] not in ('UpSize', 'Close'):
                 per[kind + ':rejected'] = per.get(kind + ':rejected', 0) + 1
 
